@@ -711,12 +711,12 @@ macro_rules! chain_row {
     };
 }
 
-chain_row!(r_u8_u16, "u8/u16", u8, u16, [(A, u8, 8), (B, u8, 3), (C1, u8, 1)], [(A, u8, 8), (B, u8, 3), (C1, u8, 1)]);
+chain_row!(r_u8_u16, "u8/u16", u8, u16, [(A, u8, 8), (B, u8, 3), (C1, u8, 1), (D, u8, 7)], [(A, u8, 8), (B, u8, 3), (C1, u8, 1), (D, u8, 7)]);
 chain_row!(r_u8_u32, "u8/u32", u8, u32, [(A, u8, 8), (B, u8, 5), (C1, u8, 1)], [(A, u8, 8), (B, u8, 5), (C1, u8, 1)]);
 chain_row!(r_u8_u64, "u8/u64", u8, u64, [(A, u8, 8), (B, u8, 4)], [(A, u8, 8), (B, u8, 4)]);
-chain_row!(r_u16_u32, "u16/u32", u16, u32, [(A, u16, 16), (B, u16, 12), (C1, u8, 7)], [(A, u16, 16), (B, u16, 12), (C1, u8, 7)]);
+chain_row!(r_u16_u32, "u16/u32", u16, u32, [(A, u16, 16), (B, u16, 12), (C1, u8, 7), (D, u16, 15)], [(A, u16, 16), (B, u16, 12), (C1, u8, 7), (D, u16, 15)]);
 chain_row!(r_u16_u64, "u16/u64", u16, u64, [(A, u16, 16), (B, u8, 8), (C1, u16, 11)], [(A, u16, 16), (B, u8, 8), (C1, u16, 11)]);
-chain_row!(r_u32_u64, "u32/u64", u32, u64, [(A, u32, 32), (B, u32, 24), (C1, u16, 12), (D, u8, 8)], [(A, u32, 32), (B, u32, 24), (C1, u16, 12), (D, u8, 8)]);
+chain_row!(r_u32_u64, "u32/u64", u32, u64, [(A, u32, 32), (B, u32, 24), (C1, u16, 12), (D, u8, 8), (E, u32, 31)], [(A, u32, 32), (B, u32, 24), (C1, u16, 12), (D, u8, 8), (E, u32, 31)]);
 chain_row!(r_u32_u128, "u32/u128", u32, u128, [(A, u32, 32), (B, u16, 9)], [(A, u32, 32), (B, u16, 9)]);
 chain_row!(r_u64_u128, "u64/u128", u64, u128, [(A, u32, 24), (B, u8, 2)], [(A, u32, 24), (B, u8, 2)]);
 
